@@ -20,13 +20,17 @@
    deleted at any time), label edits, any interleaving of deliveries, resyncs, relists, stale fetches and work
    items, any pattern of failed / timed-out writes, a crash at any point -- no two nodes hold overlapping pod
    CIDRs.
-   Residue (not a theorem; monitored on the implementation's traces): node deletion and restarts in that
-   history theorem, i.e. the world-level glue that a node's
+   And WITH node deletion (Hist2_proofs.v, invariant GInv): behind a well-behaved informer -- names used once,
+   deletions delivered in order as ordinary delete notifications, node work items taken from the queue -- no two
+   existing nodes ever overlap, nor does an existing node overlap one that is deleted but whose deletion the
+   controller has not processed yet (its blocks stay reserved until then, and are handed out again only after).
+   Residue (not a theorem; monitored on the implementation's traces): tombstones and relists, nodes marked
+   deleting, stale node work items combined with deletion, pre-set pod CIDRs, restarts: the world-level glue that a node's
    reservation is released only through a deletion notification (or deleting sync) of that very node
    name, and that the CIDRs carried by such notifications are the node's own (assumption E7 about pod
    CIDRs pre-set by the environment; known findings K-TOMB, K-REPL are exactly failures of that glue
    in the other direction: a release that never comes). *)
-From NIPAM Require Import Sys Alloc_proofs Sys_proofs Inv_proofs World_proofs Resv_proofs Hist_proofs.
+From NIPAM Require Import Sys Alloc_proofs Sys_proofs Inv_proofs World_proofs Resv_proofs Hist_proofs Hist2_proofs.
 Open Scope N_scope.
 
 (* single step, any world *)
@@ -108,4 +112,29 @@ Example C01_history_nonvacuous :
 Proof.
   cbv zeta. split; [repeat constructor; cbn; try discriminate; unfold good_obj, good_field, good_range, wf_cidr; cbn; repeat split; try lia; try discriminate; intros [? _]; discriminate|].
   split; [repeat constructor|]. vm_compute. reflexivity.
+Qed.
+
+(* the property over whole histories of one incarnation WITH node deletion (well-behaved informer) *)
+Theorem C01_no_two_holders_overlap_in_any_history_with_node_deletion :
+  forall po lab pre s1 s2 outs ops,
+  Forall user_op pre -> (forall s, s1 = Some s -> wf_cidr s) -> (forall s, s2 = Some s -> wf_cidr s) -> Forall tame_op ops ->
+  NoDup (flat_map created (pre ++ ops)) ->
+  let w := run po lab init_world (pre ++ Construct s1 s2 outs :: ops) in
+  forall n1 c1 n2 c2, holder w n1 c1 -> holder w n2 c2 -> n1 <> n2 -> overlapb c1 c2 = false.
+Proof. exact no_overlap_with_node_deletion. Qed.
+Print Assumptions C01_no_two_holders_overlap_in_any_history_with_node_deletion.
+
+(* non-vacuity: n1 is served, deleted, its deletion is processed, and n2 then receives the very block n1 held *)
+Example C01_deletion_history_nonvacuous :
+  let po0 : parse_oracle := fun _ => Some [] in
+  let lab0 : label_oracle := fun k => [cl k] in
+  let pre := [UCreateCC (mkCCObj [99] (FOk (mkCidr V4 167772160 28)) FEmpty 4 (Some [107]) [] false 1 0 0); UCreateNode [110;49] [] []] in
+  let ops := [StartInformers; ProcCC UOk; ProcNode [POk]; DeliverNode; UDeleteNode [110;49]; DeliverNode; UCreateNode [110;50] [] [];
+              DeliverNode; ProcNode [POk]; ProcNode [POk]] in
+  Forall user_op pre /\ Forall tame_op ops /\ NoDup (flat_map created (pre ++ ops)) /\
+  map (fun a => (an_name a, an_cidrs a)) (w_nodes (run po0 lab0 init_world (pre ++ Construct None None [] :: ops)))
+  = [([110;50], [PGood (mkCidr V4 167772160 28) true])].
+Proof.
+  cbv zeta. split; [repeat constructor; cbn; try discriminate; unfold good_obj, good_field, good_range, wf_cidr; cbn; repeat split; try lia; try discriminate; intros [? _]; discriminate|].
+  split; [repeat constructor|]. split; [cbn; constructor; [cbn; intros [E|[]]; discriminate E|constructor; [intros []|constructor]]|]. vm_compute. reflexivity.
 Qed.
